@@ -8,7 +8,10 @@ use log::info;
 use log::{debug, error};
 use saito_rust::run_thread::run_thread;
 use tokio::sync::mpsc::{Receiver, Sender};
+#[cfg(not(saito_verif))]
 use tokio::sync::RwLock;
+#[cfg(saito_verif)]
+use saito_core::core::util::verif::RwLock;
 use tokio::task::JoinHandle;
 use tracing_subscriber;
 use tracing_subscriber::filter::Directive;
